@@ -190,6 +190,17 @@ def handle (_ : Unit) (toks : List Tok) : Unit × String :=
           | .error _ => "error"
           | .bonds (b :: bs) => encOutcome (.bonds (b :: bs)) ++ " bt=" ++ encInt r.2
           | o => encOutcome o))
+    | [Tok.str "shared", procs, sched] => do
+        let ps ← (← procs.list?).mapM procOf
+        let sc ← (← sched.list?).mapM fun t => do
+          match ← t.list? with
+          | [i, m] => pure (← i.nat?, ← molOf m)
+          | _ => none
+        pure (" ; ".intercalate ((runInterleaved ps sc).map fun r =>
+          match r.1 with
+          | .error _ => "error"
+          | .bonds (b :: bs) => encOutcome (.bonds (b :: bs)) ++ " bt=" ++ encInt r.2
+          | o => encOutcome o))
     | [Tok.str "region", rs, ra, rb] => do
         let regs ← (← rs.list?).mapM pairOf
         let a : Atom := { (default : Atom) with oldResid := some (← ra.int?) }
